@@ -672,7 +672,7 @@ func checkTemplateElementsEmpty(p *Prog, r *Report, rule string) {
 			if known && !isNil {
 				return // value present: a copy of it is what we want
 			}
-			if cst, ok := v.(*ssa.Const); ok && cst.IsNil() {
+			if cst, ok := stripChange(v).(*ssa.Const); ok && cst.IsNil() {
 				return
 			}
 			if stripChange(v) == val {
@@ -680,13 +680,18 @@ func checkTemplateElementsEmpty(p *Prog, r *Report, rule string) {
 			}
 			bad = "on the path where the input is nil (or not known to be non-nil) the constructor gets a non-nil slice"
 		}
-		if ph, ok := c.Call.Args[1].(*ssa.Phi); ok {
-			for i, e := range ph.Edges {
-				check(e, ph.Block().Preds[i])
+		var walk func(v ssa.Value, blk *ssa.BasicBlock, d int)
+		walk = func(v ssa.Value, blk *ssa.BasicBlock, d int) {
+			v = stripChange(v)
+			if ph, ok := v.(*ssa.Phi); ok && d > 0 {
+				for i, e := range ph.Edges {
+					walk(e, ph.Block().Preds[i], d-1)
+				}
+				return
 			}
-		} else {
-			check(c.Call.Args[1], in.Block())
+			check(v, blk)
 		}
+		walk(c.Call.Args[1], in.Block(), 3)
 		r.Check(bad == "", rule, fmt.Sprintf("%s: %s receives nil when the input value is nil", fnKey(dec), ctor.Name()), p.instrPos(in), "nil stays nil, so IsValueEmpty() holds for template elements",
 			bad+": IsValueEmpty() (value == nil) is false for the element of a template, AddInfoElement refuses it, and MakeTemplateSet - hence the UDP template refresh - fails for every template containing such an element", true)
 	})
